@@ -123,6 +123,8 @@ class Extractor:
         self.simple_macros = set(self.opts.get('simple_macros', []))
         self.macro_defs = {}
         self.x2 = self.opts.get('x2', True)
+        self.x14 = self.opts.get('x14', False)
+        self.x14_n = 0
         self.fired = Counter()
         self.keep_derives = tuple(self.opts.get('keep_derives', KEEP_DERIVES_DEFAULT))
         self.debug_asserts = self.opts.get('debug_asserts', 'prove')   # 'prove' (F) | 'drop' (S)
@@ -335,6 +337,12 @@ class Extractor:
                     else:
                         self._no_item_at = start
                         i = start
+                    continue
+            # ---- X14 slice-iterator `for` loops
+            if t.t == 'for' and self.x14 and (i == lo or toks[i - 1].t in ('{', '}', ';')):
+                r = self.desugar_for(i, hi)
+                if r is not None:
+                    i = r
                     continue
             # ---- macros
             if t.k == 'id' and i + 2 < hi and toks[i + 1].t == '!' and toks[i + 2].t in OPEN:
@@ -675,6 +683,125 @@ class Extractor:
                     self.emit_syn('; assert(l %s r); }' % op)
             return end + (1 if has_semi else 0)
         return None
+
+    def desugar_for(self, i, hi):
+        """X14: `for PAT in S[.iter()][.rev()|.copied()|.skip(K)|.take(M)|.enumerate()]* { BODY }` over a slice S is
+        rewritten into an index `while` loop with the std adaptor semantics (double-ended range [lo,hi), skip/take trim
+        the front in the current direction, enumerate counts the elements yielded after it). `continue` stays correct
+        (the cursor moves before BODY). Anything else (integer ranges, other adaptors, non-slice receivers named in
+        opts x14_skip) is left untouched."""
+        toks = self.toks
+        # pattern up to `in` at depth 0
+        k = i + 1
+        depth = 0
+        while k < hi:
+            t = toks[k].t
+            if t in OPEN:
+                depth += 1
+            elif t in CLOSE:
+                depth -= 1
+            elif depth == 0 and t == 'in':
+                break
+            k += 1
+        if k >= hi:
+            return None
+        pat = [x.t for x in toks[i + 1:k]]
+        # expression up to body `{`
+        e0 = k + 1
+        q = e0
+        depth = 0
+        while q < hi:
+            t = toks[q].t
+            if t in ('(', '['):
+                depth += 1
+            elif t in (')', ']'):
+                depth -= 1
+            elif depth == 0 and t == '{':
+                break
+            q += 1
+        if q >= hi:
+            return None
+        body_open = q
+        body_close = match_close(toks, body_open)
+        expr = toks[e0:body_open]
+        if any(x.t in ('..', '..=') for x in expr):
+            return None
+        # receiver = tokens before the first `.iter`/adaptor
+        j = 0
+        while j < len(expr) and not (expr[j].t == '.' and j + 1 < len(expr) and expr[j + 1].t in ('iter', 'rev', 'copied', 'skip', 'take', 'enumerate')):
+            j += 1
+        recv = ''.join(x.t for x in expr[:j])
+        if not recv or recv in self.opts.get('x14_skip', []):
+            return None
+        chain = []
+        while j < len(expr):
+            if expr[j].t != '.' or expr[j + 1].t not in ('iter', 'rev', 'copied', 'skip', 'take', 'enumerate') or expr[j + 2].t != '(':
+                return None
+            c = match_close(expr, j + 2)
+            chain.append((expr[j + 1].t, _join_tokens([x.t for x in expr[j + 3:c]])))
+            j = c + 1
+        # pattern forms
+        deref = True      # elements are &u8 unless copied()
+        idx_name = None
+        if pat[0] == '(' and pat[-1] == ')':
+            inner = pat[1:-1]
+            if ',' not in inner:
+                return None
+            c = inner.index(',')
+            idx_name = ''.join(inner[:c])
+            ep = inner[c + 1:]
+        else:
+            ep = pat
+        copied = any(a == 'copied' for a, _ in chain)
+        if ep[0] == '&':
+            el_name = ''.join(ep[1:])
+        elif copied:
+            el_name = ''.join(ep)
+        else:
+            return None         # binding a reference: not needed by this crate
+        if (idx_name is not None) != any(a == 'enumerate' for a, _ in chain):
+            return None
+        n = self.x14_n
+        self.x14_n += 1
+        S, LO, HI, K, P = '__s%d' % n, '__lo%d' % n, '__hi%d' % n, '__k%d' % n, '__p%d' % n
+        pre = ['{ let %s = %s; let mut %s: usize = 0; let mut %s: usize = %s.len();' % (S, recv, LO, HI, S)]
+        fwd = True
+        enum_on = False
+        if idx_name is not None:
+            pre.append('let mut %s: usize = 0;' % K)
+        for a, arg in chain:
+            if a == 'rev':
+                if enum_on:
+                    return None     # enumerate().rev() needs ExactSize semantics: not used by the crate
+                fwd = not fwd
+            elif a == 'skip':
+                if fwd:
+                    pre.append('if %s < %s - %s { %s = %s + %s; } else { %s = %s; }' % (arg, HI, LO, LO, LO, arg, LO, HI))
+                else:
+                    pre.append('if %s < %s - %s { %s = %s - %s; } else { %s = %s; }' % (arg, HI, LO, HI, HI, arg, HI, LO))
+                if enum_on:
+                    pre.append('%s = %s + %s;' % (K, K, arg))
+            elif a == 'take':
+                if fwd:
+                    pre.append('if %s < %s - %s { %s = %s + %s; }' % (arg, HI, LO, HI, LO, arg))
+                else:
+                    pre.append('if %s < %s - %s { %s = %s - %s; }' % (arg, HI, LO, LO, HI, arg))
+            elif a == 'enumerate':
+                enum_on = True
+        hint = toks[i].s
+        self.emit_syn(' '.join(pre), hint)
+        self.emit_syn('while %s < %s {' % (LO, HI), hint)
+        if fwd:
+            step = 'let %s = %s; %s = %s + 1;' % (P, LO, LO, LO)
+        else:
+            step = '%s = %s - 1; let %s = %s;' % (HI, HI, P, HI)
+        self.emit_syn(step + ' let %s = %s[%s];' % (el_name, S, P))
+        if idx_name is not None:
+            self.emit_syn('let %s = %s; %s = %s + 1;' % (idx_name, K, K, K))
+        self.walk(body_open + 1, body_close)
+        self.emit_syn('} }')
+        self.fired['X14'] += 1
+        return body_close + 1
 
     def expand_simple_macro(self, name, o, c, hint):
         """X6: single-arm macro_rules! with ident metavariables and one `$($x:ident),+` repetition: textual substitution
